@@ -93,6 +93,14 @@ package promapi
 //@   ghost ps string
 //@   after call RangeQueryTimes.String set ps = result0
 //@   at call partitionLocker.lock assert [C14] arg1 == sprintf("%s/%s/%s", APIPathQueryRange, expr, ps)
+// C13 (independent of the order in which slice responses arrive): the slice results are concatenated in arrival order
+// and MergeRanges only reorders them when something merges, so a successful answer is put into canonical order
+// (sort.Stable over MetricTimeRanges.Less: labels, then start) after the last time the list is rebuilt
+//@   ghost canon bool
+//@   after call append set canon = false
+//@   after call MergeRanges set canon = false
+//@   after call Stable set canon = true
+//@   at return assert [C13] result1 == nil ==> canon
 
 // ---------------------------------------------------------------------------------------------
 // C15: failover happens on unavailability only.
@@ -336,3 +344,14 @@ package promapi
 // errors.As / errors.Is (and so IsUnavailableError, problemFromError) classify that error and no earlier one.
 //@ func FailoverGroupError.Unwrap [C15]
 //@   ensures result == e.err
+
+// C14: the cache / single-flight key of a question is the digest of ALL its fields, in order, each terminated by a
+// separator: every field is written to one streaming digest followed by "\n", and the key is that digest's sum -
+// so two questions that differ in a field, or in which field holds a value, are different inputs of the hash function.
+//@ func hash [C14]
+//@   ghost d *xxhash.Digest
+//@   after call New set d = result0
+//@   at call Digest.WriteString#1 assert arg0 == d && arg1 == s[iter1-1]
+//@   at call Digest.WriteString#2 assert arg0 == d && arg1 == "\n"
+//@   at call Digest.Sum64 assert arg0 == d
+//@   loop 1 invariant 0 <= iter1 && iter1 <= len(s)
